@@ -19,6 +19,8 @@ def spell(rng, cfg, rate=0.25):
     the spelling."""
     if rng.random() < rate:
         cfg["spell"] = rng.choice(SPELLINGS[cfg["ver"]])
+    if cfg.get("mqtt") and rng.random() < 0.3:
+        cfg["pub_fail_every"] = rng.choice([2, 3, 5])     # the broker refuses every k-th publish
     return cfg
 
 
